@@ -117,7 +117,9 @@ def gen_np(rs, kind, n_arms=None, with_probs=False):
         return {"kind": "clusters", "n_clusters": int(pick(rs, [2, 2, 3])), "minibatch": bool(rs.integers(4) == 0)}
     if kind == "tree":
         return {"kind": "tree", "params": pick(rs, [{}, {}, {"max_depth": 2}, {"min_samples_leaf": 2},
-                                                   {"max_depth": 1}, {"max_depth": 3, "min_samples_leaf": 2}])}
+                                                   {"max_depth": 1}, {"max_depth": 3, "min_samples_leaf": 2},
+                                                   {"max_features": 1}, {"max_features": "sqrt"}, {"max_features": 0.4, "max_depth": 3},
+                                                   {"random_state": None}, {"random_state": 5, "max_depth": 1}])}
     raise ValueError(kind)
 
 
@@ -378,7 +380,13 @@ def apply_op(m, op):
     if k in ("fit", "partial_fit"):
         f = m.fit if k == "fit" else m.partial_fit
         d = np.asarray(op["d"])
+        if op.get("d_enc") == "series":
+            import pandas as pd
+            d = pd.Series(op["d"], index=range(3, 3 + len(op["d"])))
         r = np.asarray(op["r"], dtype={"bool": bool, "int64": np.int64}.get(op.get("r_dtype"), float))
+        if op.get("rev_view") and op.get("d_enc") != "series":
+            # the same values seen through views with a negative stride (what data[::-1] of a newest-first log is)
+            d, r = np.ascontiguousarray(d[::-1])[::-1], np.ascontiguousarray(r[::-1])[::-1]
         if op.get("X") is not None:
             X = enc_X(op["X"], op.get("x_enc"), training=True) if len(op["X"]) else np.zeros((0, int(op.get("nf", 1))))
             f(d, r, X)
